@@ -216,6 +216,11 @@ class Driver:
             return (r[0], unhx(r[1]) if len(r) > 1 else "")
         return [] if r[1] == "-" else [int(c) for c in r[1]]
 
+    def evallit(self, cid, texts):
+        """Evaluator::parse_literal for every text, then run: ('ok', printed result) / ('err', stage, message)"""
+        r = self.req("evallit", cid, *[hx(t) for t in texts])
+        return tuple(r[:2]) if r[0] == "err" else (r[0], unhx(r[1]) if len(r) > 1 else "")
+
     def toreg(self, cid):
         r = self.req("toreg", cid)
         if r[0] != "ok":
